@@ -105,7 +105,7 @@ theorem optStr_plain {d : Dialect} {rule : Option Bytes} (h : ∀ r, rule = some
     (optStr [0x3A] rule).all plain = true := by
   cases rule with
   | none => rfl
-  | some r => simp [optStr, List.all_append, oid_plain (h r rfl), plain]
+  | some r => simp [optStr, oid_plain (h r rfl), plain]
 
 theorem kw_plain {kw : Bytes} {dn : Bool} (h : dn = true → isDnKw .lib kw = true) :
     (if dn then 0x3A :: kw else []).all plain = true := by
